@@ -155,7 +155,7 @@ Proof.
     + eapply frame_own; eauto.
     + intros u _ Hn _. apply carried_upd; auto.
   - destruct (Hcopy Eg) as (Hr & Hs & Hc).
-    destruct (mvcalc_spec H (cfuel m) true (is_root (aroot t)) (hp m) t) as (h1 & E1 & F1); auto.
+    destruct (mvcalc_spec H (cfuel m) true (is_root (aroot t)) (hp m) t) as (h1 & E1 & F1 & _); auto.
     { apply depth_fuel; auto. }
     unfold reg, alloc. rewrite E1. cbn [fst hp nx]. intros E. inversion E; subst m1 a1; clear E. simpl.
     assert (Hn1 : h1 (nx m) = None).
